@@ -136,7 +136,16 @@ def fixed_cases() -> dict:
     def s(env):
         return [{"op": "step", "label": "S", "env": env, "out": ["s.txt"]}]
     d9 = case({}, [s(["VA", "VB"]), s(["VA"])], env={"VA": "1", "VB": "2"})
-    return {co.SIG_D4: d4, co.SIG_D9: d9}
+    f6p = e3.Project(sources={}, env={"VA": "a"}, program={
+        "scripts": {"plan.py": s(["VA"])}, "commands": {"S": [{"op": "getenv", "name": "VA"}, {"op": "auto"}]}})
+    f6 = co.case_json(f6p, [{"edits": [{"op": "setenv", "name": "VA", "value": "b"}]},
+                            {"edits": [{"op": "setenv", "name": "VA", "value": "a"}]}])
+    out = {co.SIG_D4: d4, co.SIG_D9: d9, co.SIG_F6: f6}
+    # minimised witnesses of the other named findings (found by the generator, kept in the corpus)
+    for path in sorted((common.VERIF / "corpus" / "C01").glob("*.json")):
+        obj = json.loads(path.read_text())
+        out.setdefault(obj["signature"], obj["case"])
+    return out
 
 
 def _item_seed(ctx, i):
@@ -146,9 +155,9 @@ def _item_seed(ctx, i):
 def _gen_item(seed: int, i: int) -> dict:
     r = random.Random(seed)
     x = r.random()
-    if x < 0.15:
+    if x < 0.12:
         flavour, build = "watch", {}
-    elif x < 0.27:
+    elif x < 0.25:
         flavour, build = "restart", {"njob": 3, "schedule": {"seed": r.randrange(1000)}}
     else:
         flavour, build = "restart", {}
@@ -169,10 +178,20 @@ def _run_item(item: dict) -> dict:
     out = {"item": item, "phases": len(hist), "stats": stats.to_json(), "sigs": {}, "error": None}
     try:
         r = co.run_case(case)
-    except e3.E3Error as exc:
-        out["error"] = f"{type(exc).__name__}: {str(exc)[:400]}"
-        return out
-    sigs = co.signatures(r["inc"], r["scr"], r["diffs"])
+    except (e3.E3Error, OSError) as exc:
+        if item["flavour"] != "watch":
+            out["error"] = f"{type(exc).__name__}: {str(exc)[:400]}"
+            return out
+        # A watch session needs an inotify instance; the per-user limit is shared with every other
+        # check running on this machine.  The same history is then run in the restart flavour.
+        out["watch_fallback"] = f"{type(exc).__name__}: {str(exc)[:120]}"
+        case = dict(case, flavour="restart")
+        try:
+            r = co.run_case(case)
+        except (e3.E3Error, OSError) as exc2:
+            out["error"] = f"{type(exc2).__name__}: {str(exc2)[:400]}"
+            return out
+    sigs = co.signatures(r["inc"], r["scr"], r["diffs"], None, r["results"][:-1])
     out["sigs"] = {k: [[d["kind"], d["key"], d["a"], d["b"]] for d in v[:6]] for k, v in sigs.items()}
     out["rc"] = [r["inc"].returncode, r["scr"].returncode]
     out["executed"] = [len(x.commands) for x in r["results"]]
@@ -217,7 +236,7 @@ def oracle(ctx, n_override=None):
     reported = set()
     for sig, case in fixed_cases().items():
         r = co.run_case(case)
-        sigs = co.signatures(r["inc"], r["scr"], r["diffs"])
+        sigs = co.signatures(r["inc"], r["scr"], r["diffs"], None, r["results"][:-1])
         ctx.case(("fixed-e3", sig), nontrivial=True)
         ctx.count("fixed_witness_runs")
         for s2, diffs in sigs.items():
@@ -226,10 +245,10 @@ def oracle(ctx, n_override=None):
                 _report(ctx, s2, case, [[d["kind"], d["key"], d["a"], d["b"]] for d in diffs],
                         f"fixed witness of {sig}; return codes {r['inc'].returncode} / {r['scr'].returncode}")
     # (3) generated histories
-    n = n_override or ctx.scale(300, 6000)
+    n = n_override or ctx.scale(240, 6000)
     items = [_gen_item(_item_seed(ctx, i), i) for i in range(n)]
     t0 = time.time()
-    results = e3.pool_map(_run_item, items, nproc=ctx.scale(8, 12))
+    results = e3.pool_map(_run_item, items, nproc=ctx.scale(10, 12))
     ctx.stats["oracle_wall_s"] = round(time.time() - t0, 1)
     agg = e3_gen.Stats()
     by_sig: dict = {}
@@ -237,6 +256,8 @@ def oracle(ctx, n_override=None):
         it = res["item"]
         ctx.count("histories")
         ctx.count("flavour:" + it["flavour"] + (":njob3" if it["build"].get("njob") else ""))
+        if res.get("watch_fallback"):
+            ctx.count("watch_fallback_to_restart")
         if res["error"]:
             ctx.count("harness_errors")
             ctx.add_failure("oracle", "harness", "C01:harness-error:" + res["error"].split(":")[0],
@@ -290,7 +311,7 @@ def replay(ctx, obj):
     w = (obj.get("failure") or {}).get("witness") or {}
     if "case" in w:
         r = co.run_case(w["case"])
-        sigs = co.signatures(r["inc"], r["scr"], r["diffs"])
+        sigs = co.signatures(r["inc"], r["scr"], r["diffs"], None, r["results"][:-1])
         ctx.case(("replay", json.dumps(w["case"], sort_keys=True)), nontrivial=True)
         for sig, diffs in sigs.items():
             _report(ctx, sig, w["case"], [[d["kind"], d["key"], d["a"], d["b"]] for d in diffs], "replayed witness")
